@@ -434,7 +434,7 @@ def run_part_c(report, tier):
     from ..common import NPROC, Violation
 
     bound = 1 if tier == "quick" else 2
-    deadline = time.time() + (60 if tier == "quick" else 900)
+    deadline = time.time() + (240 if tier == "quick" else 900)
     ctx = multiprocessing.get_context("fork")
     per = {}
     total = {"executions": 0, "points": 0}
